@@ -97,6 +97,30 @@ fn const_bytes<'tcx>(tcx: TyCtxt<'tcx>, owner: DefId, c: &mir::ConstOperand<'tcx
                 _ => None,
             }
         }
+        // a promoted `&&str` / `&&[u8]` (e.g. the right-hand side of `slice == "literal"`): follow the inner fat pointer
+        ty::Ref(_, inner2, _)
+            if matches!(inner2.kind(), ty::Str)
+                || matches!(inner2.kind(), ty::Slice(e) if *e == tcx.types.u8) =>
+        {
+            let ConstValue::Scalar(mir::interpret::Scalar::Ptr(ptr, _)) = val else { return None };
+            let (prov, off) = ptr.prov_and_relative_offset();
+            let mir::interpret::GlobalAlloc::Memory(m) = tcx.global_alloc(prov.alloc_id()) else { return None };
+            let a = m.inner();
+            let start = off.bytes() as usize;
+            if a.size().bytes() < (start + 16) as u64 {
+                return None;
+            }
+            let inner_prov = a.provenance().ptrs().get(&rustc_abi::Size::from_bytes(start as u64))?;
+            let raw = a.inspect_with_uninit_and_ptr_outside_interpreter(start..start + 16);
+            let o = u64::from_le_bytes(raw[0..8].try_into().ok()?) as usize;
+            let n = u64::from_le_bytes(raw[8..16].try_into().ok()?) as usize;
+            let mir::interpret::GlobalAlloc::Memory(m2) = tcx.global_alloc(inner_prov.alloc_id()) else { return None };
+            let b = m2.inner();
+            if b.size().bytes() < (o + n) as u64 {
+                return None;
+            }
+            Some(b.inspect_with_uninit_and_ptr_outside_interpreter(o..o + n).to_vec())
+        }
         _ => None,
     }
 }
